@@ -12,7 +12,7 @@ ASSUMPTIONS = ["numpy on one row is the reference, incl. numpy's identity for an
                "values only (the statement does not fix the result dtype); means within 2 ulp of the result dtype",
                "float values are dyadic, so sums and products are exact whatever the summation order; no NaN"]
 REQUIRED_FEATURES = ["empty_row_first", "empty_row_last", "consecutive_empty_rows", "all_rows_empty", "zero_rows",
-                     "keepdims", "axis_none", "ufunc_reduce", "undefined_reference", "arg_reduction", "float_inf_pattern", "float_nan_pattern"]
+                     "keepdims", "axis_none", "ufunc_reduce", "undefined_reference", "arg_reduction", "float_inf_pattern", "float_nan_pattern", "same_object_sequence"]
 BOUNDS = {"quick": "LV(4,3) x 9 dtypes x 2 patterns x {sum,prod,any,all,max,min,mean,argmax,argmin} x {method axis=-1, np.f axis=-1, "
                    "axis=1, keepdims, axis=None} + ufunc.reduce for add, multiply, logical_and/or/xor, bitwise_and/or/xor, maximum, minimum",
           "thorough": "LV(5,3) u LV(3,5), 3 patterns"}
@@ -64,6 +64,10 @@ def cases(shard, tier):
             for op in ("max", "min", "argmax", "argmin"):
                 for form in ("method", "func"):
                     yield [lens, dt, "dec", op, form]
+        if dt in ("int64", "float64", "bool"):
+            # one object asked again and again (contiguous, and as a selection nothing has read yet)
+            yield [lens, dt, 0, "seq", "contig"]
+            yield [lens, dt, 1, "seq", "view"]
 
 
 def _close(a, b, dts):
@@ -105,10 +109,12 @@ def check(case, acc):
         flat = np.array(([1.5, float("nan"), 0.25, -2.0, 4.0, 0.5, float("nan"), 3.0] * (size // 8 + 1))[:size], dtype=dt)
     else:
         flat = dsl.pattern(dt, size, k)
-    if op == "mean" and dt in ("int64", "uint64"):
+    if op in ("mean", "seq") and dt in ("int64", "uint64"):
         # the mean is computed in float64: keep |values| < 2**53 so the reference itself is exact
         flat = (flat.astype(np.float64) % 1000).astype(flat.dtype)
     rows = dsl.split_rows(flat, lens)
+    if op == "seq":
+        return _check_seq(acc, case, flat, rows)
     ra = RaggedArray(flat.copy(), list(lens))
     if op in ("argmax", "argmin"):
         acc.feature("arg_reduction")
@@ -210,3 +216,45 @@ def _classify(case, lens):
     if op in ("argmax", "argmin"):
         return "c05.argmax-argmin"
     return None
+
+
+SEQ = ["sum", "max", "argmax", "any", "prod", "mean", "sum", "min", "argmin", "all", "max", "argmax", "sum"]
+
+
+def _check_seq(acc, case, flat, rows):
+    """the named reductions one after the other on ONE object, row-wise and total alternating; none may disturb a later one"""
+    from npstructures import RaggedArray
+    lens, dt, k, op, form = case
+    acc.feature("same_object_sequence")
+    if form == "view":
+        back = [np.array([1], dtype=dt)] + rows[::-1]
+        big = RaggedArray(np.concatenate(back), [len(r) for r in back])
+        ra = big[:0:-1]
+    else:
+        ra = RaggedArray(flat.copy(), list(lens))
+    if sum(lens):
+        acc.nontrivial()
+    has_empty = any(l == 0 for l in lens) or not lens
+    for i, name in enumerate(SEQ):
+        if name in NEEDS_NONEMPTY and has_empty:
+            continue
+        npf = getattr(np, name)
+        with np.errstate(all="ignore"):
+            exp = tuple(pyval(npf(r)) for r in rows)
+            exp_all = pyval(npf(flat)) if name in ("sum", "any", "all") else None
+        o = attempt(lambda: tuple(pyval(x) for x in np.asarray(getattr(ra, name)(axis=-1)).ravel()))
+        acc.trans()
+        acc.outcome((i, name, o))
+        ok = (o == exp) if name != "mean" else (not is_refused(o) and len(o) == len(exp) and all(_close(a, b, str(flat.dtype)) for a, b in zip(o, exp)))
+        if not ok:
+            acc.fail("same-object-sequence", (i, name, exp), o)
+            return
+        if exp_all is not None:
+            o = attempt(lambda: pyval(np.asarray(npf(ra))[()]))
+            acc.trans()
+            if o != exp_all:
+                acc.fail("same-object-sequence", (i, name + " (no axis)", exp_all), o)
+                return
+    post = attempt(lambda: [[pyval(v) for v in r] for r in ra.tolist()])
+    if post != [[pyval(v) for v in r] for r in rows]:
+        acc.fail("operand-modified", [r.tolist() for r in rows], post)
